@@ -2362,13 +2362,16 @@ impl Node {
         defer! { trace_node_state!(self.get_state()); }
         let mut state = self.get_state();
         let now = self.clock.now().as_secs();
-        if !state.fee_velocity_control.insert(now, non_beneficial_sat * 1000) {
+        // saturate instead of wrapping (or panicking with the state lock held): a value that
+        // does not fit in u64 msat must never be counted as a small one
+        let non_beneficial_msat = non_beneficial_sat.saturating_mul(1000);
+        if !state.fee_velocity_control.insert(now, non_beneficial_msat) {
             policy_err!(
                 validator,
                 "policy-onchain-fee-range",
                 "fee velocity would be exceeded {} + {} > {}",
                 state.fee_velocity_control.velocity(),
-                non_beneficial_sat * 1000,
+                non_beneficial_msat,
                 state.fee_velocity_control.limit
             );
         }
